@@ -3,11 +3,15 @@
     codemod selected it, listed as failed with all its findings unfixed; every other file and every other codemod is
     processed exactly as in the run without the bad file; a valid report is written; exit status 0.
     Model: Model/Run.v.  Statements indexed by the guard table of the pipeline kind (Generated/Tables.v):
-    - [C10_isolation] (libcst), [C10_isolation_xml]: positive branch when both try blocks are present — step level:
+    - [C10_isolation] (libcst): positive branch when both try blocks are present — step level:
       nothing escapes; each file's outcome is a function of its OWN content (so no fault in a sibling alters it); a
       failing selected file is not written, yields the failure record with every finding unfixed at line 0.
     - [C10_regex_refuted]: the same statement at the regex pipeline, whose [apply] has no try: negative branch — a
       two-codemod run on a project with one undecodable file aborts (status 1, no report)  [kf_regex_no_isolation].
+    - [C10_xml_refuted]: the same statement at the XML pipeline.  Its [apply] guards the SAX parse but re-reads the file
+      with .decode("utf-8") OUTSIDE the try block; the table records TryParse only when every read of the parse stage is
+      guarded, so on the current tree this is the negative branch [kf_xml_reread_no_isolation].  (The model then treats
+      every read failure of the XML pipeline as escaping; a malformed document is in fact caught - observed by the probe.)
     - [C10_run_isolation]: run level, any codemod list whose pipelines have both tries (every table value): the run on
       the project and the run on the project WITHOUT the bad file both complete (exit 0, report) and end in the same
       file system, stores, change sets, dependencies and dependency records per codemod; failedFiles / unfixedFindings
@@ -48,9 +52,9 @@ Qed.
 Theorem C10_isolation : C10_isolation_statement run_tables_v PLibcst.
 Proof. exact (C10_isolation_all run_tables_v PLibcst). Qed.
 Print Assumptions C10_isolation.
-Theorem C10_isolation_xml : C10_isolation_statement run_tables_v PXml.
+Theorem C10_xml_refuted : C10_isolation_statement run_tables_v PXml.
 Proof. exact (C10_isolation_all run_tables_v PXml). Qed.
-Print Assumptions C10_isolation_xml.
+Print Assumptions C10_xml_refuted.
 Theorem C10_regex_refuted : C10_isolation_statement run_tables_v PRegex.
 Proof. exact (C10_isolation_all run_tables_v PRegex). Qed.
 Print Assumptions C10_regex_refuted.
